@@ -120,7 +120,7 @@ def mc_converge(ctx, quick):
     """A-layer (spec/Patcher.tla) executed on the P-layer device over full squares of Configs(R)"""
     import os
     base = open(os.path.join(core.SPEC, "mc", "MC_Converge.cfg")).read()
-    n_entries = 19
+    n_entries = 20
     runs = []
     for e in (MC_QUICK if quick else range(1, n_entries + 1)):
         if e in MC_KNOWN:
